@@ -124,6 +124,18 @@ pub fn verify(case: &Value, scratch: &Path, idx: usize) -> Value {
         };
     }
 
+    // optional: do not start before the given wall-clock instant (used to let a layout expire
+    // between two verifications of one process); bounded to 60 s
+    if let Some(nb) = case.get("not_before_ns").and_then(|v| v.as_str()) {
+        if let Ok(nb) = nb.parse::<u128>() {
+            let mut waited = 0u32;
+            while now_ns() < nb && waited < 6000 {
+                std::thread::sleep(std::time::Duration::from_millis(10));
+                waited += 1;
+            }
+        }
+    }
+
     let mut runs = Vec::new();
     let mut last_summary: Option<Value> = None;
     for _ in 0..reps {
